@@ -336,7 +336,8 @@ func VerifScope() {
 	sk := vnSkeletons[ski]
 	names := vBytes("names", sk.sites)
 	for i := range names {
-		vAssume(names[i] == 'a' || names[i] == 'b' || names[i] == 'c')
+		nc := names[i]
+		vAssume(nc == 'a' || nc == 'b' || nc == 'c')
 	}
 	if ski == 10 {
 		vAssume(names[2] != names[1]) // the self-referencing default is skeleton 13
